@@ -97,6 +97,7 @@ def C10(ctx):
                 [("query", 4000 if q else 200000)])
     fresh_process_determinism(ctx, "query_lists", 2, 4 if q else 16, "fresh-processes")
     fresh_process_determinism(ctx, "query_many", 0, 4 if q else 16, "fresh-processes-many")
+    req_campaign(ctx, [("fold", 3)])       # form bodies are query strings too: trailing line breaks, escapes, same names
     suite_campaign(ctx, only=r"query")
     return dict(
         rule="E: TLC enumerates every parameter list of <= %d components over 80 components (10 names incl. prefix-"
@@ -318,7 +319,7 @@ def C02(ctx):
     q = ctx.quick
     pipeline_mc(ctx, q)
     req_campaign(ctx, [("spell", 0), ("base", 0 if q else 1), ("midnight", 0), ("window", 0 if q else 1), ("fold", 1),
-                       ("s3hash", 0), ("dup", 0), ("cfgmix", 0, 13 if q else 1)])
+                       ("s3hash", 0), ("dup", 0), ("expires", 0), ("cfgmix", 0, 13 if q else 1)])
     suite_campaign(ctx)
     logical_campaign(ctx, 400 if q else 20000)
     return dict(
@@ -335,7 +336,7 @@ def C02(ctx):
 def C03(ctx):
     q = ctx.quick
     pipeline_mc(ctx, q)
-    req_campaign(ctx, [("scope", 0), ("midnight", 0), ("akid", 0)])
+    req_campaign(ctx, [("scope", 0), ("midnight", 0), ("akid", 0), ("dup", 0)])
     return dict(
         rule="E: 31 credential scopes (arities 0..7 parts, region/service prefix, suffix, case variant, empty, extra char, "
              "non-ASCII, swapped, terminator and date near-misses) x 3 server configurations (incl. region a prefix of the "
@@ -352,7 +353,7 @@ def C04(ctx):
     # triples is the inclusive window on nanoseconds (Apalache / SMT)
     apalache(ctx, "CivilLemma", "Lemmas")
     fn_campaign(ctx, [("ts_field", 0), ("ts_seps", 0)], [])     # the textual forms themselves (hour 24, offsets, ...)
-    req_campaign(ctx, [("window", 0 if q else 1)])
+    req_campaign(ctx, [("window", 0 if q else 1), ("window_frac", 0), ("expires", 0)])
     return dict(
         rule="E: request instants at every whole-second offset %s from the server time plus 1 ns and 0.5 s either side of "
              "both bounds, rendered in 5 textual forms (basic Z, extended Z, +05:30, -0245, 9-digit fraction), both "
@@ -381,7 +382,8 @@ def C11(ctx):
     q = ctx.quick
     mc(ctx, "MC_Headers", law_cfg("HvalLaws", "hval", 4 if q else 6), label="HvalLaws")
     fn_campaign(ctx, [("hval", 4 if q else 6)], [("hval", 3000 if q else 100000)])
-    req_campaign(ctx, [("mut_struct", 0), ("mut_hdr", 0 if q else 1), ("spell", 0)] + ([] if q else [("base", 1)]))
+    req_campaign(ctx, [("mut_struct", 0), ("mut_hdr", 0 if q else 1), ("spell", 0), ("reqfold", 0), ("reqs", 0)]
+                 + ([] if q else [("base", 1)]))
     suite_campaign(ctx, only=r"header")
     logical_campaign(ctx, 400 if q else 20000)
     return dict(
@@ -452,6 +454,8 @@ def C07(ctx):
     groups = {}
     for ln in lines:
         c = json.loads(ln)
+        if q and c.get("nonce") and c["group"][2] != 1:
+            continue        # quick: the shaped-signature requests with lower-case guesses only
         groups.setdefault(json.dumps(c["group"]), []).append(c)
     d = os.path.dirname(cases)
     jobs = []
